@@ -47,6 +47,21 @@ theorem findOneOf_eq {s s' : St} (h : Inv s) {v : Nat} (hv : v < s.n) {chars : L
   subst h2
   exact ⟨rfl, E.silent.abs⟩
 
+/-- both C string views taken (`*this` first, then `other`, which may be the same object): the two
+    strings the comparison loops walk over are the two values -/
+theorem views2 {s s1 s2 : St} (h : Inv s) {v w : Nat} (hv : v < s.n) (hw : w < s.n)
+    (h1 : cview s v = some s1) (h2 : cview s1 w = some s2) {a b : List Nat}
+    (ha : allSome (absVar s v) = some a) (hb : allSome (absVar s w) = some b)
+    (hza : ∀ x ∈ a, x ≠ 0) (hzb : ∀ x ∈ b, x ≠ 0) :
+    cstrVar s2 v 0 = some a ∧ cstrVar s2 w 0 = some b ∧ ∀ u, absVar s2 u = absVar s u := by
+  obtain ⟨E1, t1⟩ := eff_cview h hv h1
+  have S1 := E1.silent
+  have hw1 : w < s1.n := by rw [S1.n]; exact hw
+  obtain ⟨E2, t2⟩ := eff_cview S1.inv hw1 h2
+  have S := S1.trans E2.silent
+  have tv := term_after_cview S1.inv hw1 t1 h2
+  exact ⟨cstrVar_eq S.inv tv (by rw [S.abs]; exact ha) hza, cstrVar_eq S.inv t2 (by rw [S.abs]; exact hb) hzb, S.abs⟩
+
 /-- `compare(other)` is the C comparison of the two values (`other` may be the same variable) -/
 theorem compareS_eq {s s' : St} (h : Inv s) {v w : Nat} (hv : v < s.n) (hw : w < s.n) {r : Int}
     (e : compareS s v w = some (s', r)) {a b : List Nat} (ha : allSome (absVar s v) = some a)
@@ -55,76 +70,37 @@ theorem compareS_eq {s s' : St} (h : Inv s) {v w : Nat} (hv : v < s.n) (hw : w <
   simp only [compareS, Option.bind_eq_bind, Option.bind_eq_some_iff, Option.pure_def, Option.some.injEq,
     Prod.mk.injEq] at e
   obtain ⟨s1, h1, s2, h2, ca, h3, cb, h4, rfl, rfl⟩ := e
-  obtain ⟨E1, t1⟩ := eff_cview h hv h1
-  have S1 := E1.silent
-  obtain ⟨E2, t2⟩ := eff_cview S1.inv (by rw [S1.n]; exact hw) h2
-  have S2 := E2.silent
-  -- the second view leaves the first variable terminated
-  have tv : termByte s2 v = some (some 0) := by
-    by_cases c : v = w
-    · subst c; exact t2
-    · -- v's descriptor is unchanged or still owned: use the value-level facts only
-      obtain ⟨d, hd⟩ := desc_some h w
-      simp only [cview, Option.bind_eq_bind] at h2
-      obtain ⟨d1, hd1⟩ := desc_some S1.inv w
-      simp only [hd1, Option.bind_some, Option.bind_eq_some_iff] at h2
-      obtain ⟨t, _, h2⟩ := h2
-      by_cases t0 : t = 0
-      · simp only [t0, ne_eq, not_true_eq_false, if_false, Option.pure_def, Option.some.injEq] at h2
-        subst h2; exact t1
-      · simp only [ne_eq, t0, not_false_eq_true, if_true] at h2
-        -- a detach of w: v's location and block are untouched
-        cases hloc : s1.vars v with
-        | empty => 
-          have : s2.vars v = .empty := by
-            simp only [detach, hd1, Option.bind_eq_bind, Option.bind_some] at h2
-            split at h2
-            · simp only [Option.bind_eq_some_iff] at h2
-              obtain ⟨_, _, _, _, h2⟩ := h2
-              rw [(writeOwn_fields h2).2.2]; exact hloc
-            · simp only [Option.bind_eq_some_iff, Option.pure_def, Option.some.injEq] at h2
-              obtain ⟨_, _, _, _, _, _, rfl⟩ := h2
-              simp only [allocSet, setEmpty, setVar, upd_other _ _ _ _ c, (release_fields s1 w).2.2.2]
-              exact hloc
-          simp [termByte, desc_empty this, memOf]
-        | foreign r off len =>
-          have hv2 : s2.vars v = .foreign r off len := by
-            simp only [detach, hd1, Option.bind_eq_bind, Option.bind_some] at h2
-            split at h2
-            · simp only [Option.bind_eq_some_iff] at h2
-              obtain ⟨_, _, _, _, h2⟩ := h2
-              rw [(writeOwn_fields h2).2.2]; exact hloc
-            · simp only [Option.bind_eq_some_iff, Option.pure_def, Option.some.injEq] at h2
-              obtain ⟨_, _, _, _, _, _, rfl⟩ := h2
-              simp only [allocSet, setEmpty, setVar, upd_other _ _ _ _ c, (release_fields s1 w).2.2.2]
-              exact hloc
-          have := t1
-          simp only [termByte, desc_foreign hloc, memOf, Option.bind_eq_bind, Option.bind_some] at this
-          simp only [termByte, desc_foreign hv2, memOf, Option.bind_eq_bind, Option.bind_some, S2.regs]
-          exact this
-        | blk b =>
-          have hv2 : ∃ b', s2.vars v = .blk b' := by
-            simp only [detach, hd1, Option.bind_eq_bind, Option.bind_some] at h2
-            split at h2
-            · simp only [Option.bind_eq_some_iff] at h2
-              obtain ⟨_, _, _, _, h2⟩ := h2
-              exact ⟨b, by rw [(writeOwn_fields h2).2.2]; exact hloc⟩
-            · simp only [Option.bind_eq_some_iff, Option.pure_def, Option.some.injEq] at h2
-              obtain ⟨_, _, _, _, _, _, rfl⟩ := h2
-              exact ⟨b, by
-                simp only [allocSet, setEmpty, setVar, upd_other _ _ _ _ c, (release_fields s1 w).2.2.2]
-                exact hloc⟩
-          obtain ⟨b', hb'⟩ := hv2
-          obtain ⟨blk, hbk⟩ := S2.inv.live v b' hb'
-          simp only [termByte, desc_blk hb' hbk, memOf, hbk, Option.bind_eq_bind, Option.bind_some, Option.map_some,
-            Nat.zero_add]
-          exact (S2.inv.wf b' blk hbk).2.2
-  have ea := cstrVar_eq S2.inv tv (by rw [S2.abs, S1.abs]; exact ha) hza
-  have eb := cstrVar_eq S2.inv t2 (by rw [S2.abs, S1.abs]; exact hb) hzb
+  obtain ⟨ea, eb, ab⟩ := views2 h hv hw h1 h2 ha hb hza hzb
   rw [ea] at h3; rw [eb] at h4
   injection h3 with h3; injection h4 with h4
   subst h3; subst h4
-  exact ⟨rfl, fun u => by rw [S2.abs, S1.abs]⟩
+  exact ⟨rfl, ab⟩
+
+theorem compareN_eq {s s' : St} (h : Inv s) {v w : Nat} (hv : v < s.n) (hw : w < s.n) {r : Int} {n : Nat}
+    (e : compareN s v w n = some (s', r)) {a b : List Nat} (ha : allSome (absVar s v) = some a)
+    (hb : allSome (absVar s w) = some b) (hza : ∀ x ∈ a, x ≠ 0) (hzb : ∀ x ∈ b, x ≠ 0) :
+    r = strcmpL (a.take n) (b.take n) ∧ ∀ u, absVar s' u = absVar s u := by
+  simp only [compareN, Option.bind_eq_bind, Option.bind_eq_some_iff, Option.pure_def, Option.some.injEq,
+    Prod.mk.injEq] at e
+  obtain ⟨s1, h1, s2, h2, ca, h3, cb, h4, rfl, rfl⟩ := e
+  obtain ⟨ea, eb, ab⟩ := views2 h hv hw h1 h2 ha hb hza hzb
+  rw [ea] at h3; rw [eb] at h4
+  injection h3 with h3; injection h4 with h4
+  subst h3; subst h4
+  exact ⟨strncmp_take n _ _ hza, ab⟩
+
+theorem compareIC_eq {s s' : St} (h : Inv s) {v w : Nat} (hv : v < s.n) (hw : w < s.n) {r : Int}
+    (e : compareIC s v w = some (s', r)) {a b : List Nat} (ha : allSome (absVar s v) = some a)
+    (hb : allSome (absVar s w) = some b) (hza : ∀ x ∈ a, x ≠ 0) (hzb : ∀ x ∈ b, x ≠ 0) :
+    r = strcmpL (a.map toLower) (b.map toLower) ∧ ∀ u, absVar s' u = absVar s u := by
+  simp only [compareIC, Option.bind_eq_bind, Option.bind_eq_some_iff, Option.pure_def, Option.some.injEq,
+    Prod.mk.injEq] at e
+  obtain ⟨s1, h1, s2, h2, ca, h3, cb, h4, rfl, rfl⟩ := e
+  obtain ⟨ea, eb, ab⟩ := views2 h hv hw h1 h2 ha hb hza hzb
+  rw [ea] at h3; rw [eb] at h4
+  injection h3 with h3; injection h4 with h4
+  subst h3; subst h4
+  exact ⟨rfl, ab⟩
 
 /-- `split`: the token list is the reference split of the value -/
 theorem split_eq {s s' : St} (h : Inv s) {v : Nat} (hv : v < s.n) {seps : List Nat} {skip : Bool}
